@@ -61,6 +61,7 @@ from .parse import (
 from .search import IMAPSearch, SearchContext
 from .utils import (
     MsgSet,
+    clip_sequence_set,
     compact_sequence,
     expand_sequence,
     sequence_set_to_list,
@@ -637,6 +638,8 @@ class Mailbox:
             msg_set,
         )
 
+        if from_uids:
+            msg_set = clip_sequence_set(msg_set, seq_max)
         msgs = sequence_set_to_list(msg_set, seq_max, uid_cmd=from_uids)
         logger.debug(
             "Mailbox: '%s', msg seq nums: %s", self.name, compact_sequence(msgs)
@@ -2669,7 +2672,9 @@ class Mailbox:
                     # max uid for the sequence max.
                     #
                     uid_list = sequence_set_to_list(
-                        msg_set, uid_max, uid_command
+                        clip_sequence_set(msg_set, uid_max),
+                        uid_max,
+                        uid_command,
                     )
 
                     # We want to convert this list of UID's in to message
